@@ -198,6 +198,72 @@ func c17(p *core.Program, r *core.Report) {
 		}
 		r.Check(bad == "", r3, strings.TrimPrefix(pkg.PkgPath, mod+"/"), "", false, "no go statement; no unsafe/sync import", bad)
 	}
+
+	// ---- (4) no state kept in the variables of a function literal that outlives its creator
+	const r4 = "closure-state-immutable"
+	r.Rule(r4, "a function literal of a library package that outlives the call creating it (it is returned, stored, or boxed in an interface: the option constructors) only reads the variables it captured: it does not assign to them and does not hand out their address - a captured variable written by such a literal is state shared by every later use of the returned value, from any goroutine (a formatting buffer kept `between calls`)", 1)
+	for _, pkg := range p.LibPkgs() {
+		for _, fn := range pkgFuncsByPath(p, pkg.PkgPath) {
+			n := 0
+			for _, b := range fn.Blocks {
+				for _, in := range b.Instrs {
+					mc, ok := in.(*ssa.MakeClosure)
+					if !ok {
+						continue
+					}
+					lit, _ := mc.Fn.(*ssa.Function)
+					if lit == nil || strings.HasSuffix(lit.Name(), "$bound") || strings.HasSuffix(lit.Name(), "$thunk") {
+						continue
+					}
+					escapes := false
+					for _, rf := range eng.Referrers(mc) {
+						switch x := rf.(type) {
+						case *ssa.Return, *ssa.MakeInterface:
+							escapes = true
+						case *ssa.Store:
+							if x.Val == ssa.Value(mc) {
+								escapes = true
+							}
+						}
+					}
+					if !escapes {
+						continue
+					}
+					n++
+					bad := ""
+					var scan func(f *ssa.Function)
+					scan = func(f *ssa.Function) {
+						for _, fv := range f.FreeVars {
+							for _, u := range eng.Referrers(fv) {
+								switch x := u.(type) {
+								case *ssa.UnOp:
+									if x.Op == token.MUL {
+										continue // a read
+									}
+								case *ssa.MakeClosure:
+									continue // handed on to a nested literal, scanned below
+								case *ssa.Store:
+									if x.Addr == ssa.Value(fv) {
+										bad = "assigns to the captured variable " + fv.Name() + " at " + p.Pos(x.Pos())
+										continue
+									}
+								}
+								if bad == "" {
+									bad = "hands out the address of the captured variable " + fv.Name() + " at " + p.Pos(u.Pos()) + " (" + u.String() + ")"
+								}
+							}
+						}
+						for _, a := range f.AnonFuncs {
+							scan(a)
+						}
+					}
+					scan(lit)
+					key := fmt.Sprintf("%s/literal#%d", short(fn), n)
+					r.Check(bad == "", r4, key, p.Pos(mc.Pos()), true, "captured variables are only read", "the function literal "+lit.Name()+" outlives "+short(fn)+" and "+bad+": the variable is state shared between all uses of the returned value")
+				}
+			}
+		}
+	}
 }
 
 func pkgFuncsByPath(p *core.Program, path string) []*ssa.Function {
@@ -366,6 +432,112 @@ func c16(p *core.Program, r *core.Report) {
 				}
 				r.Check(okLen, r3, fmt.Sprintf("%s/make#%d", short(fn), k), p.Pos(ms.Pos()), true, "allocated with the length of the slice being copied",
 					"the copy is allocated with length "+ms.Len.String()+", not len() of the source slice: elements beyond (or missing below) that length are dropped or zero-filled in the clone")
+			}
+		}
+	}
+	// ---- rule 4: a field the copy fills in somewhere is filled in on every path
+	const r4 = "clone-fields-on-every-path"
+	r.Rule(r4, "in every function statically reachable from a Clone method, each field of a struct under construction (a fresh local/new value or the dst parameter of a deep-copy function) that is written on some path - stored, or the destination of copy() - is written on every path from the struct's creation to a return: a copy that skips its slices on a shortcut (an early return for an `empty` source) loses the parts of a geometry that has parts but no coordinates", 15)
+	for _, fn := range order {
+		type dkey struct {
+			d ssa.Value
+			f int
+		}
+		writes := map[dkey]map[*ssa.BasicBlock]bool{}
+		names := map[dkey]string{}
+		rootOf := func(v ssa.Value) ssa.Value {
+			switch x := v.(type) {
+			case *ssa.Parameter, *ssa.Alloc:
+				return x
+			case *ssa.UnOp:
+				if fv, ok := x.X.(*ssa.FreeVar); ok && x.Op == token.MUL {
+					return fv
+				}
+			}
+			return nil
+		}
+		note := func(fa *ssa.FieldAddr, b *ssa.BasicBlock) {
+			d := rootOf(fa.X)
+			if d == nil {
+				return
+			}
+			pt, ok := fa.X.Type().Underlying().(*types.Pointer)
+			if !ok {
+				return
+			}
+			st, ok := pt.Elem().Underlying().(*types.Struct)
+			if !ok || !strings.HasPrefix(namedTypeQual(pt.Elem()), mod) {
+				return
+			}
+			if prm, isP := d.(*ssa.Parameter); isP && (len(fn.Params) == 0 || prm != fn.Params[0] || !strings.HasPrefix(fn.Name(), "deriveDeepCopy")) {
+				return // only the dst parameter of a deep-copy function is a struct under construction
+			}
+			k := dkey{d, fa.Field}
+			if writes[k] == nil {
+				writes[k] = map[*ssa.BasicBlock]bool{}
+			}
+			writes[k][b] = true
+			names[k] = namedTypeName(pt.Elem()) + "." + st.Field(fa.Field).Name()
+		}
+		for _, b := range fn.Blocks {
+			for _, in := range b.Instrs {
+				switch x := in.(type) {
+				case *ssa.Store:
+					if fa, ok := x.Addr.(*ssa.FieldAddr); ok {
+						note(fa, b)
+					}
+				case *ssa.Call:
+					if eng.BuiltinName(x) == "copy" && len(x.Call.Args) == 2 {
+						if ld, ok := x.Call.Args[0].(*ssa.UnOp); ok && ld.Op == token.MUL {
+							if fa, ok := ld.X.(*ssa.FieldAddr); ok {
+								note(fa, b)
+							}
+						}
+					}
+				}
+			}
+		}
+		var ks []dkey
+		for k := range writes {
+			ks = append(ks, k)
+		}
+		sort.Slice(ks, func(i, j int) bool {
+			if names[ks[i]] != names[ks[j]] {
+				return names[ks[i]] < names[ks[j]]
+			}
+			return ks[i].d.Name() < ks[j].d.Name()
+		})
+		for _, k := range ks {
+			start := fn.Blocks[0]
+			if a, ok := k.d.(*ssa.Alloc); ok {
+				start = a.Block()
+			}
+			// blocks reachable from the creation without passing a block that writes the field
+			seen := map[*ssa.BasicBlock]bool{}
+			var bad *ssa.BasicBlock
+			var walk func(b *ssa.BasicBlock)
+			walk = func(b *ssa.BasicBlock) {
+				if seen[b] || writes[k][b] {
+					return
+				}
+				seen[b] = true
+				if _, isRet := b.Instrs[len(b.Instrs)-1].(*ssa.Return); isRet && bad == nil {
+					bad = b
+				}
+				for _, s := range b.Succs {
+					walk(s)
+				}
+			}
+			walk(start)
+			dn := "local"
+			if _, isA := k.d.(*ssa.Alloc); !isA {
+				dn = k.d.Name()
+			}
+			key := fmt.Sprintf("%s/%s(%s)", short(fn), names[k], dn)
+			if bad != nil {
+				r.Bad(r4, key, p.Pos(bad.Instrs[len(bad.Instrs)-1].Pos()), "the return at "+p.Pos(bad.Instrs[len(bad.Instrs)-1].Pos())+" is reached without "+names[k]+" having been written, although other paths write it: on this shortcut the copy keeps the zero value of the field")
+			} else {
+				r.OK(r4, key, p.Pos(fn.Pos()), true, "written on every path to a return")
 			}
 		}
 	}
